@@ -411,7 +411,7 @@ func m3Emit(tr *Trace, side *Trace, sc *m3Scenario, ev []M, steps []sched.Step, 
 		m3StepTrace.Emit(M{"e": "endx", "x": execSeq, "scenario": sc.Name})
 	}
 	tr.Emit(M{"e": "scn", "x": execSeq, "scenario": sc.Name, "producers": sc.Producers, "nrep": sc.NRep, "closers": sc.Closers, "flushers": sc.Flushers,
-		"qcap": sc.QCap, "max_packet": sc.MaxPacket, "dests": max1(sc.Dests)})
+		"qcap": sc.QCap, "max_packet": sc.MaxPacket, "dests": max1(sc.Dests), "alive": aliveList(max1(sc.Dests), 0)})
 	for _, e := range ev {
 		tr.Emit(e)
 	}
@@ -426,6 +426,15 @@ func m3Emit(tr *Trace, side *Trace, sc *m3Scenario, ev []M, steps []sched.Step, 
 		st.stuckMsg = stuck
 	}
 	st.distinct[sc.Name+"|"+ss] = true
+}
+
+// aliveList: destinations 1..n except the first `dead` ones
+func aliveList(n, dead int) []int {
+	out := []int{}
+	for d := dead + 1; d <= n; d++ {
+		out = append(out, d)
+	}
+	return out
 }
 
 func max1(n int) int {
